@@ -162,6 +162,11 @@ def step (s : St) (line : String) : St × String :=
       | .accepted => "stored" | .rejDecode => "rejected:decode" | .rejValidate => "rejected:validate"
       | .rejGenesis => "rejected:genesis" | .rejVerify => "rejected:verify" | .panics => "panic"
     (s, s!"p2pboot {v}")
+  | "p2pbootdat" =>
+    let v := match p2pBootDataAdmit (o.bytes "blob") with
+      | .accepted => "stored" | .rejDecode => "rejected:decode" | .rejValidate => "rejected:validate"
+      | .rejGenesis => "rejected:genesis" | .rejVerify => "rejected:verify" | .panics => "panic"
+    (s, s!"p2pbootdat {v}")
   | "p2plibdat" =>
     let tr : Option (Option Data) :=
       if o.str "trusted" = "-" || o.str "trusted" = "" then some none
